@@ -171,6 +171,20 @@ CHECKS = {
         "sparse-ray cases are counted, not judged.",
         "3/C17",
     ),
+    "C16": (
+        "exploration",
+        "region-pair lattice + solid_c16",
+        "bounded-exhaustive enumeration of all ordered pairs of region kinds x set operations x a 3-D probe lattice (plus on-set probes), "
+        "judged by independent analytic membership / distance predicates",
+        "13 region kinds (planar ones at non-zero z) -> all 169 ordered pairs (thorough: 676 with two shapes/poses each) x {intersect, union, "
+        "difference} x eager and lazy operands: membership of ~340k (3M) probes equals the Boolean combination of the operands' oracle "
+        "membership; `intersects`, `containsRegion`, `distanceTo`, `projectVector` (nearest hit along +-direction), AABB, size and "
+        "inclusion-exclusion identities agree with the oracle.",
+        "Trusted: models/solid_c16.py (numpy only). Probes within the margin of a boundary are skipped and counted; pairs the library refuses "
+        "are counted. Three design-level deviations (planar results rebuilt at z=0, polygon x polyline height, footprint-column membership) are "
+        "known findings listed by exact signature.",
+        "3/C16",
+    ),
 }
 
 NOT_YET = {}
